@@ -534,8 +534,7 @@ class dir_archive(archive):
         return
     def _lsdir(self):
         "get a list of subdirectories in the root directory"
-        dirs = walk(self.__state__['id'],patterns=PREFIX+'*',recurse=False,folders=True,files=False,links=False)
-        return [d for d in dirs if not os.path.basename(d).startswith(PREFIX+TEMP)] # skip temporary directories
+        return walk(self.__state__['id'],patterns=PREFIX+'*',recurse=False,folders=True,files=False,links=False)
     def _hasinput(self, root):
         "check if results subdirectory has stored input file"
         return bool(walk(root,patterns=self._args,recurse=False,folders=False,files=True,links=False))
@@ -606,9 +605,11 @@ class dir_archive(archive):
         # create an input file when key is not suitable directory name
         if self._fname(key) != key: input=True #XXX: errors if protocol=0,1?
         # create a temporary directory, and dump the results
+        # (the temporary directory does not carry PREFIX: it is never listed, and no key maps to it)
+        _dir = os.path.join(self.__state__['id'], _key)
         try:
-            _file = os.path.join(self._mkdir(_key), self._file)
-            if input: _args = os.path.join(self._getdir(_key), self._args)
+            _file = os.path.join(mkdir(_key, root=self.__state__['id'], mode=self.__state__['permissions']), self._file)
+            if input: _args = os.path.join(_dir, self._args)
             if self.__state__['serialized']:
                 protocol = self.__state__['protocol']
                 if self.__state__['fast']:
@@ -648,7 +649,7 @@ class dir_archive(archive):
         # move the results to the proper place
         try: #XXX: possible permissions issues here
             self._rmdir(key) #XXX: 'key' must be a suitable dir name
-            os.renames(self._getdir(_key), self._getdir(key))
+            os.renames(_dir, self._getdir(key))
 #       except TypeError: #XXX: catch key that isn't converted to safe filename
 #           "error in populating directory for '%s'" % str(key)
         except OSError: #XXX: if rename fails, may need cleanup (_rmdir ?)
@@ -2224,8 +2225,7 @@ if hdf:
           return
       def _lsdir(self):
           "get a list of subdirectories in the root directory"
-          dirs = walk(self.__state__['id'],patterns=PREFIX+'*',recurse=False,folders=True,files=False,links=False)
-          return [d for d in dirs if not os.path.basename(d).startswith(PREFIX+TEMP)] # skip temporary directories
+          return walk(self.__state__['id'],patterns=PREFIX+'*',recurse=False,folders=True,files=False,links=False)
       def _hasinput(self, root):
           "check if results subdirectory has stored input file"
           return bool(walk(root,patterns=self._args,recurse=False,folders=False,files=True,links=False))
@@ -2280,9 +2280,11 @@ if hdf:
           # create an input file when key is not suitable directory name
           if self._fname(key) != key: input=True #XXX: errors if protocol=0,1?
           # create a temporary directory, and dump the results
+          # (the temporary directory does not carry PREFIX: it is never listed, and no key maps to it)
+          _dir = os.path.join(self.__state__['id'], _key)
           try:
-              _file = os.path.join(self._mkdir(_key), self._file)
-              if input: _args = os.path.join(self._getdir(_key), self._args)
+              _file = os.path.join(mkdir(_key, root=self.__state__['id'], mode=self.__state__['permissions']), self._file)
+              if input: _args = os.path.join(_dir, self._args)
               adict = {'serialized':self.__state__['serialized'],\
                        'protocol':self.__state__['protocol'],\
                        'meta':self.__state__['meta']}
@@ -2297,7 +2299,7 @@ if hdf:
           # move the results to the proper place
           try: #XXX: possible permissions issues here
               self._rmdir(key) #XXX: 'key' must be a suitable dir name
-              os.renames(self._getdir(_key), self._getdir(key))
+              os.renames(_dir, self._getdir(key))
 #         except TypeError: #XXX: catch key that isn't converted to safe filename
 #             "error in populating directory for '%s'" % str(key)
           except OSError: #XXX: if rename fails, may need cleanup (_rmdir ?)
